@@ -27,9 +27,9 @@ def _run(rule, rep, f, thunk, what):
     try:
         return True, thunk()
     except Raised as ex:
-        if ex.name in ('TypeError', 'AttributeError'):
+        if ex.name in ('TypeError', 'AttributeError') and not getattr(ex, 'certain', False):
             raise Unsupported('the evaluator met a {} it cannot attribute to the code'.format(ex.name))
-        rep.violates(rule, f, 'def ' + f.name, 'raises {} {}'.format(ex.name, what))
+        rep.violates(rule, f, 'def ' + f.name, 'raises {} {}{}'.format(ex.name, what, ' ({})'.format(ex.msg) if ex.msg else ''))
         return False, None
 
 
@@ -182,6 +182,12 @@ _ISO = {
     'cycle2FF': ({'y', 'z'}, {'a'}, {('y', 'a'): 'z', ('z', 'a'): 'y'}, 'y', {'y', 'z'}),
     'tail3': ({'p', 'q', 'r'}, {'a'}, {('p', 'a'): 'q', ('q', 'a'): 'r', ('r', 'a'): 'r'}, 'p', {'r'}),
     'tail3-late': ({'p', 'q', 'r'}, {'a'}, {('p', 'a'): 'q', ('q', 'a'): 'r', ('r', 'a'): 'q'}, 'p', {'r'}),
+    # equally many reachable states, the same language, no bijection: the synchronous relation pairs one state twice on one
+    # side only while both projections have the same size (seed C20-k)
+    'lasso-loop1': ({'p', 'q', 'r'}, {'a'}, {('p', 'a'): 'q', ('q', 'a'): 'r', ('r', 'a'): 'r'}, 'p', {'p', 'q', 'r'}),
+    'lasso-cycle2': ({'p', 'q', 'r'}, {'a'}, {('p', 'a'): 'q', ('q', 'a'): 'r', ('r', 'a'): 'q'}, 'p', {'p', 'q', 'r'}),
+    'lasso4-loop1': ({'p', 'q', 'r', 's'}, {'a'}, {('p', 'a'): 'q', ('q', 'a'): 'r', ('r', 'a'): 's', ('s', 'a'): 's'}, 'p', set()),
+    'lasso4-cycle3': ({'p', 'q', 'r', 's'}, {'a'}, {('p', 'a'): 'q', ('q', 'a'): 'r', ('r', 'a'): 's', ('s', 'a'): 'q'}, 'p', set()),
     'ab3': ({'0', '1', '2'}, {'a', 'b'}, {('0', 'a'): '1', ('0', 'b'): '2', ('1', 'a'): '1', ('1', 'b'): '0', ('2', 'a'): '0', ('2', 'b'): '2'}, '0', {'1'}),
     'ab3-renamed': ({'u', 'v', 'w'}, {'a', 'b'}, {('w', 'a'): 'u', ('w', 'b'): 'v', ('u', 'a'): 'u', ('u', 'b'): 'w', ('v', 'a'): 'w', ('v', 'b'): 'v'}, 'w', {'u'}),
     'ab3-swapped': ({'u', 'v', 'w'}, {'a', 'b'}, {('w', 'a'): 'v', ('w', 'b'): 'u', ('u', 'a'): 'u', ('u', 'b'): 'w', ('v', 'a'): 'w', ('v', 'b'): 'v'}, 'w', {'u'}),
@@ -189,7 +195,8 @@ _ISO = {
 }
 _ISO_PAIRS = [('loop1', 'cycle2'), ('cycle2', 'loop1'), ('cycle2F', 'cycle2F-renamed'), ('cycle2F', 'cycle2F-other'), ('loop1F', 'cycle2FF'), ('cycle2FF', 'loop1F'),
               ('tail3', 'tail3-late'), ('tail3', 'tail3'), ('ab3', 'ab3-renamed'), ('ab3-renamed', 'ab3'), ('ab3', 'ab3-swapped'), ('cycle2F', 'cycle2'),
-              ('ab3', 'ab3 + unreachable'), ('ab3 + unreachable', 'ab3')]
+              ('ab3', 'ab3 + unreachable'), ('ab3 + unreachable', 'ab3'),
+              ('lasso-loop1', 'lasso-cycle2'), ('lasso-cycle2', 'lasso-loop1'), ('lasso4-loop1', 'lasso4-cycle3'), ('lasso4-cycle3', 'lasso4-loop1'), ('lasso-cycle2', 'lasso-cycle2')]
 
 
 def check_isomorphism(ctx, rep, f, rule=RULE + '.M14'):
@@ -215,7 +222,7 @@ def check_isomorphism(ctx, rep, f, rule=RULE + '.M14'):
     except (Unsupported, RecursionError) as e:
         rep.undecided(rule, f, 'def ' + f.name, 'outside the evaluator: {}'.format(e))
         return
-    rep.holds(rule, f, 'def ' + f.name, 'on {} runs (14 model pairs under two iteration orders of sets: a loop against a 2-cycle in both orders, renamed copies, acceptance differing at the start and later, a swapped transition, unreachable states) the answer is True exactly when a bijection of the reachable states exists'.format(cases))
+    rep.holds(rule, f, 'def ' + f.name, 'on {} runs (19 model pairs under two iteration orders of sets: a loop against a 2-cycle in both orders, lassos with equally many states and the same language but a loop of another length, renamed copies, acceptance differing at the start and later, a swapped transition, unreachable states) the answer is True exactly when a bijection of the reachable states exists'.format(cases))
 
 
 class _Sym(str):
@@ -863,19 +870,38 @@ def _model_regexps():
             C(zero, a), S(zero, a), I(C(a, b)), C(I(S(a, b)), C(b, S(a, b))), I(C(I(a), I(b))), C(C(a, I(b)), a), S(C(a, b), C(b, a)), I(S(C(a, a), b)), C(S(one, a), S(one, b)),
             C(I(a), C(I(b), a)), I(C(a, I(a))), C(a, C(b, a)), C(C(a, b), a), S(I(a), C(b, I(a))),
             # the first / shortest split that matches is a dead end, a later one succeeds
-            I(S(a, C(a, b))), C(S(a, C(a, b)), b), C(I(a), a), I(S(C(a, b), a)), C(I(S(a, C(a, b))), b)]
+            I(S(a, C(a, b))), C(S(a, C(a, b)), b), C(I(a), a), I(S(C(a, b), a)), C(I(S(a, C(a, b))), b)] + _digit_regexps()
+
+
+def _digit_regexps():
+    """expressions over the LETTERS 0 and 1, which print like the constants 0 (empty language) and 1 (empty word)"""
+    d0, d1, one, zero = ('Symbol', '0'), ('Symbol', '1'), ('One',), ('Zero',)
+    S = lambda x, y: ('Sum', x, y)       # noqa: E731
+    C = lambda x, y: ('Concat', x, y)    # noqa: E731
+    I = lambda x: ('Iteration', x)       # noqa: E731
+    return [S(d1, one), S(one, d1), S(zero, d0), S(d0, zero), C(d0, S(d1, one)), C(I(d0), S(d1, one)), S(C(I(d0), d1), I(d0)), I(S(d1, one)), C(d1, one), C(zero, d0), S(d0, d0), S(C(d0, d1), C(d0, one))]
+
+
+def _rx_alphabet(t):
+    """'01' for an expression over the letters 0 / 1, 'ab' otherwise"""
+    if t[0] == 'Symbol':
+        return '01' if t[1] in '01' else 'ab'
+    for x in t[1:]:
+        if isinstance(x, tuple) and _rx_alphabet(x) == '01':
+            return '01'
+    return 'ab'
 
 
 def check_regexp_matcher(ctx, rep, f, rule=RULE + '.M22'):
-    """regexp_accepts_word on 35 model expressions (every constructor under every other, stars over expressions that match the
+    """regexp_accepts_word on 47 model expressions (twelve of them over the letters 0 and 1, which print like the constants) (every constructor under every other, stars over expressions that match the
     empty word, nested stars, concatenations whose left or right part matches the empty word, 0 inside) and all words over
     {a, b} up to length 3: the answer is membership in the denoted language (set semantics computed by the analyser)."""
     cases = 0
-    words = [''.join(w) for n in range(4) for w in itertools.product('ab', repeat=n)]
     try:
         for t in _model_regexps():
             L = _rx_lang(t, 3)
             r = _rx(t)
+            words = [''.join(w) for n in range(4) for w in itertools.product(_rx_alphabet(t), repeat=n)]
             for w in words:
                 it = _interp(ctx, 'asc', max_steps=400000)
                 it.superclasses = {k: ('Regexp',) for k in ('Zero', 'One', 'Symbol', 'Iteration', 'Sum', 'Concat')}
@@ -891,7 +917,7 @@ def check_regexp_matcher(ctx, rep, f, rule=RULE + '.M22'):
     except (Unsupported, RecursionError) as e:
         rep.undecided(rule, f, 'def ' + f.name, 'outside the evaluator: {}'.format(e))
         return
-    rep.holds(rule, f, 'def ' + f.name, 'on {} evaluations (35 model expressions with nested stars, stars over expressions matching the empty word, concatenations with an empty-matching side, splits whose first match is a dead end, 0 inside; all words over {{a, b}} up to length 3) the answer is membership in the denoted language'.format(cases))
+    rep.holds(rule, f, 'def ' + f.name, 'on {} evaluations (47 model expressions (twelve of them over the letters 0 and 1, which print like the constants) with nested stars, stars over expressions matching the empty word, concatenations with an empty-matching side, splits whose first match is a dead end, 0 inside; all words over {{a, b}} up to length 3) the answer is membership in the denoted language'.format(cases))
 
 
 # ---- CYK table and membership on model grammars in Chomsky normal form ------------------------------------------------------------
@@ -1022,6 +1048,9 @@ _PDAS = {
     'final initial state, stack-neutral loop': (['s'], ['a'], ['A'], [('s', 'a', '_', 's', '_')], 's', ['s']),
     'pushes and never pops (a*)': (['q0'], ['a'], ['X'], [('q0', 'a', '_', 'q0', 'X')], 'q0', ['q0']),
     'two final states, symbols left on the stack': (['g0', 'g1', 'g2'], ['a', 'b'], ['X', 'Y'], [('g0', 'a', '_', 'g1', 'X'), ('g1', 'b', '_', 'g2', 'Y'), ('g1', 'a', 'X', 'g1', 'Y')], 'g0', ['g1', 'g2']),
+    # an accepting run that is three balanced pieces in a row through different states (seed C10-k: the concatenation rules of
+    # pda_to_cfg must be closed under composition, A_03 needs A_02 or A_13, which only concatenation rules define)
+    'three balanced pieces in a row (aaa)': (['q0', 'q1', 'q2', 'q3', 'm'], ['a'], ['X', 'Y', 'Z'], [('q0', 'a', '_', 'm', 'X'), ('m', '_', 'X', 'q1', '_'), ('q1', 'a', '_', 'm', 'Y'), ('m', '_', 'Y', 'q2', '_'), ('q2', 'a', '_', 'm', 'Z'), ('m', '_', 'Z', 'q3', '_')], 'q0', ['q3']),
     'palindromes with a centre mark': (['l', 'r'], ['a', 'b', 'c'], ['A', 'B'], [('l', 'a', '_', 'l', 'A'), ('l', 'b', '_', 'l', 'B'), ('l', 'c', '_', 'r', '_'), ('r', 'a', 'A', 'r', '_'), ('r', 'b', 'B', 'r', '_')], 'l', ['r']),
 }
 
@@ -1084,10 +1113,30 @@ def check_pda_acceptance(ctx, rep, f, rule=RULE + '.M25'):
                         if got != want:
                             rep.violates(rule, f, 'def ' + f.name, 'on the PDA "{}" the word {!r} is {} although {} accepting computation exists'.format(name, w, 'accepted' if got else 'rejected', 'an' if want else 'no'))
                             return
+        # completeness AT the limit: the largest closure the run needs has exactly as many configurations as the limit allows.  A
+        # layered epsilon graph (two layers of two states, every state of a layer linked to every state of the next) has many more
+        # epsilon EDGES than configurations: a budget that is spent per edge or per duplicate runs out (seed C09-k).
+        layered = (['s', 'a1', 'a2', 'b1', 'b2', 'g', 'f'], ['a'], ['X'],
+                   [('s', '_', '_', 'a1', '_'), ('s', '_', '_', 'a2', '_'), ('a1', '_', '_', 'b1', '_'), ('a1', '_', '_', 'b2', '_'), ('a2', '_', '_', 'b1', '_'), ('a2', '_', '_', 'b2', '_'),
+                    ('b1', '_', '_', 'g', '_'), ('b2', '_', '_', 'g', '_'), ('g', 'a', '_', 'f', '_')], 's', ['f'])
+        for limit in (6, 7, 8):
+            for w in ('', 'a', 'aa'):
+                for order in ('asc', 'desc'):
+                    P = _pda(*layered)
+                    it = _interp(ctx, order, classes=_pda_classes(), max_steps=400000)
+                    it.constants = {'GambaTools.pda_epsilon_closure_max_iterations': limit}
+                    ok, got = _run(rule, rep, f, lambda: it.call(f, [P, w]), 'on the layered PDA and the word {!r}'.format(w))
+                    if not ok:
+                        return
+                    cases += 1
+                    if bool(got) != (w == 'a'):
+                        rep.violates(rule, f, 'def ' + f.name, 'on the layered epsilon PDA (largest epsilon closure: 6 configurations) with the limit {} the word {!r} is {}'.format(
+                            limit, w, 'accepted although no accepting computation exists' if got else 'rejected although an accepting computation exists and every closure fits the limit'))
+                        return
     except (Unsupported, RecursionError) as e:
         rep.undecided(rule, f, 'def ' + f.name, 'outside the evaluator: {}'.format(e))
         return
-    rep.holds(rule, f, 'def ' + f.name, 'on {} evaluations (eight model PDAs with pushing, popping, replacing and stack-neutral moves, a push and a pop on the same letter, symbols left on the stack, a final initial state; all words up to length 4 resp. 3; two iteration orders of sets) the answer is True exactly when an accepting computation exists'.format(cases))
+    rep.holds(rule, f, 'def ' + f.name, 'on {} evaluations (nine model PDAs with pushing, popping, replacing and stack-neutral moves, a push and a pop on the same letter, symbols left on the stack, a final initial state; all words up to length 4 resp. 3; two iteration orders of sets; a layered epsilon PDA whose largest closure has exactly as many configurations as the limit) the answer is True exactly when an accepting computation exists'.format(cases))
 
 
 # ---- regular expression -> NFA and DFA -> regular expression on models --------------------------------------------------------------
@@ -1135,7 +1184,7 @@ def check_regexp_to_nfa(ctx, rep, f, rule=RULE + '.M26'):
                 if g['q0'] not in Q or not set(g['F']) <= Q or eps in set(g['Sigma']) or any(p not in Q or not set(v) <= Q or (a != eps and a not in set(g['Sigma'])) for (p, a), v in delta.items()):
                     rep.violates(rule, f, 'def ' + f.name, 'on the expression {} the result is not a valid NFA (a state or label outside the declared sets, or epsilon inside the alphabet)'.format(_rx_str(t)))
                     return
-                have = _nfa_lang(Obj('NFA', Q=Q, Sigma=set(g['Sigma']) | {'a', 'b'}, delta=delta, q0=g['q0'], F=set(g['F']), epsilon=eps), {'a', 'b'}, 3)
+                have = _nfa_lang(Obj('NFA', Q=Q, Sigma=set(g['Sigma']) | set(_rx_alphabet(t)), delta=delta, q0=g['q0'], F=set(g['F']), epsilon=eps), set(_rx_alphabet(t)), 3)
                 want = _rx_lang(t, 3)
                 if have != want:
                     extra, missing = sorted(have - want), sorted(want - have)
@@ -1144,7 +1193,7 @@ def check_regexp_to_nfa(ctx, rep, f, rule=RULE + '.M26'):
     except (Unsupported, RecursionError) as e:
         rep.undecided(rule, f, 'def ' + f.name, 'outside the evaluator: {}'.format(e))
         return
-    rep.holds(rule, f, 'def ' + f.name, 'on {} runs (35 model expressions, two iteration orders of sets) the result is a valid NFA with exactly the denoted words over {{a, b}} up to length 3'.format(cases))
+    rep.holds(rule, f, 'def ' + f.name, 'on {} runs (47 model expressions (twelve of them over the letters 0 and 1, which print like the constants), two iteration orders of sets) the result is a valid NFA with exactly the denoted words over {{a, b}} up to length 3'.format(cases))
 
 
 _ABC_DFAS = {
@@ -1217,11 +1266,15 @@ _GEN_GRAMMARS = {
     'S -> S | A; A -> eps': [('S', ['S', 'A']), ('A', [''])],
     'S -> EaS | b; E -> eps': [('S', ['EaS', 'b']), ('E', [''])],
     'S -> aXY | T; T -> XY | c; X -> a; Y -> b': [('S', ['aXY', 'T']), ('T', ['XY', 'c']), ('X', ['a']), ('Y', ['b'])],
+    # the empty language with a long rule of a productive variable (seed C08-k), rules that only LOOK like Chomsky normal form (C07-k, C12-k)
+    'S -> ST; T -> abc': [('S', ['ST']), ('T', ['abc'])],
+    'S -> AB | eps; A -> a | eps; B -> b': [('S', ['AB', '']), ('A', ['a', '']), ('B', ['b'])],
+    'S -> AB | ABB; A -> a; B -> b': [('S', ['AB', 'ABB']), ('A', ['a']), ('B', ['b'])],
 }
 _PHASES = ['cfg_add_new_start_variable_in_place', 'cfg_remove_epsilon_rules_in_place', 'cfg_eliminate_unit_rules_in_place', 'cfg_make_rules_of_length_two_in_place', 'cfg_eliminate_terminals_in_place']
 
 
-def check_chomsky_phases(ctx, rep, funcs, rule=RULE + '.M28'):
+def check_chomsky_phases(ctx, rep, funcs, rule=RULE + '.M28', first_rule=False):
     """the five phases of the Chomsky conversion applied in order to model grammars with epsilon rules, nullable chains, unit
     cycles, long right-hand sides and terminals inside them (among them Sipser's example): after EVERY phase the start variable
     derives the same words up to length 3 (least fixpoint computed by the analyser), the variables used are declared, and at
@@ -1253,6 +1306,11 @@ def check_chomsky_phases(ctx, rep, funcs, rule=RULE + '.M28'):
                         rep.violates(rule, f, 'def ' + f.name, 'on the grammar {} (sets iterated in {} order) the phase changes the language: afterwards the start variable {}'.format(
                             name, 'ascending' if order == 'asc' else 'descending', 'derives {!r}, which it did not'.format(extra[0]) if extra else 'no longer derives {!r}'.format(missing[0])))
                         return
+                    if first_rule and now and now[0][0] != S:
+                        # the simple text format has no start declaration: the reader takes the variable of the FIRST rule
+                        rep.violates(rule, f, 'def ' + f.name, 'on the grammar {} (sets iterated in {} order) the first rule after the phase belongs to {} and not to the start variable {}: the grammar printed in the simple format is read back with another start variable'.format(
+                            name, 'ascending' if order == 'asc' else 'descending', now[0][0], S))
+                        return
                     used = {lhs for lhs, _ in now} | {x for _, syms in now for x, kind in syms if kind == 'Variable'}
                     if not used <= {str(x) for x in G._f['V']} or S not in {str(x) for x in G._f['V']}:
                         rep.violates(rule, f, 'def ' + f.name, 'on the grammar {} a variable used in the rules is not declared in V afterwards: {}'.format(name, sorted(used - {str(x) for x in G._f['V']})))
@@ -1268,7 +1326,7 @@ def check_chomsky_phases(ctx, rep, funcs, rule=RULE + '.M28'):
     except (Unsupported, RecursionError) as e:
         rep.undecided(rule, f0, 'def ' + f0.name, 'outside the evaluator: {}'.format(e))
         return
-    rep.holds(rule, funcs[-1], 'def cfg_to_chomsky_in_place (pipeline)', 'on {} phase runs (eight model grammars with epsilon rules, nullable chains, unit cycles, long right-hand sides, terminals inside them, a variable that already has the tail of a long rule among its alternatives; two iteration orders of sets) every phase keeps the words up to length 3 and the declared variables, and the final grammar is in Chomsky normal form'.format(cases))
+    rep.holds(rule, funcs[-1], 'def cfg_to_chomsky_in_place (pipeline)', 'on {} phase runs (eleven model grammars with epsilon rules, nullable chains, unit cycles, long right-hand sides, terminals inside them, a variable that already has the tail of a long rule among its alternatives; two iteration orders of sets) every phase keeps the words up to length 3 and the declared variables, and the final grammar is in Chomsky normal form'.format(cases))
 
 
 # ---- the accepts / rejects checker on a model DFA ------------------------------------------------------------------------------------
@@ -1418,7 +1476,7 @@ def check_pda_run(ctx, rep, f, rule=RULE + '.M30'):
     except (Unsupported, RecursionError) as e:
         rep.undecided(rule, f, 'def ' + f.name, 'outside the evaluator: {}'.format(e))
         return
-    rep.holds(rule, f, 'def ' + f.name, 'on {} evaluations (eight model PDAs, all words up to length 4 resp. 3, two iteration orders of sets) a run is returned exactly when an accepting computation exists and every returned run is a computation of the PDA'.format(cases))
+    rep.holds(rule, f, 'def ' + f.name, 'on {} evaluations (nine model PDAs, all words up to length 4 resp. 3, two iteration orders of sets) a run is returned exactly when an accepting computation exists and every returned run is a computation of the PDA'.format(cases))
 
 
 # ---- the finite-language helpers of the checkers on model languages -----------------------------------------------------------------
@@ -1544,7 +1602,7 @@ def check_cfg_membership(ctx, rep, f, rule=RULE + '.M32'):
     except (Unsupported, RecursionError) as e:
         rep.undecided(rule, f, 'def ' + f.name, 'outside the evaluator: {}'.format(e))
         return
-    rep.holds(rule, f, 'def ' + f.name, 'on {} evaluations (eight general model grammars, all words up to length 3) the answer is True exactly when the start variable derives the word, and the grammar handed in is untouched'.format(cases))
+    rep.holds(rule, f, 'def ' + f.name, 'on {} evaluations (eleven general model grammars, all words up to length 3) the answer is True exactly when the start variable derives the word, and the grammar handed in is untouched'.format(cases))
 
 
 # ---- PDA -> CFG on model PDAs ---------------------------------------------------------------------------------------------------------
@@ -1596,7 +1654,7 @@ def check_pda_to_cfg(ctx, rep, f, rule=RULE + '.M33'):
     except (Unsupported, RecursionError) as e:
         rep.undecided(rule, f, 'def ' + f.name, 'outside the evaluator: {}'.format(e))
         return
-    rep.holds(rule, f, 'def ' + f.name, 'on {} runs (eight model PDAs, two iteration orders of sets) the grammar derives exactly the words up to length 3 resp. 2 that the PDA accepts, and the PDA handed in is untouched'.format(cases))
+    rep.holds(rule, f, 'def ' + f.name, 'on {} runs (nine model PDAs, two iteration orders of sets) the grammar derives exactly the words up to length 3 resp. 2 that the PDA accepts, and the PDA handed in is untouched'.format(cases))
 
 
 # ---- Turing machine verdict and recorded run on model machines --------------------------------------------------------------------------
